@@ -2,13 +2,14 @@
   C17 — instantiating constants.
 
   Model (literal transcription, core Lean only) of
-    * `TTCFG.instantiate_constants`            synth/syntax/grammars/ttcfg.py:359-376
+    * `TTCFG.instantiate_constants`            synth/syntax/grammars/ttcfg.py:372-389
     * `UCFG.instantiate_constants`             synth/syntax/grammars/u_cfg.py:198-213
-    * `ProbDetGrammar.instantiate_constants`   synth/syntax/grammars/tagged_det_grammar.py:216-231
-    * `TaggedDetGrammar.instantiate_constants` synth/syntax/grammars/tagged_det_grammar.py:99-112
-    * `ProbUGrammar.instantiate_constants`     synth/syntax/grammars/tagged_u_grammar.py:258-276
-    * `Program.all_constants_instantiation`    synth/syntax/program.py:66-69, 189-193, 308-317
-    * `ProbDetGrammar.probability`             tagged_det_grammar.py:144-162
+    * `ProbDetGrammar.instantiate_constants`   synth/syntax/grammars/tagged_det_grammar.py:219-234
+    * `TaggedDetGrammar.instantiate_constants` synth/syntax/grammars/tagged_det_grammar.py:102-115
+    * `ProbUGrammar.instantiate_constants`     synth/syntax/grammars/tagged_u_grammar.py:266-284
+      (`TaggedUGrammar.instantiate_constants`  tagged_u_grammar.py:103-118 has the same loop)
+    * `Program.all_constants_instantiation`    synth/syntax/program.py:68-71, 190-194, 311-320
+    * `ProbDetGrammar.probability`             tagged_det_grammar.py:146-164
   and the specification of the property (`isInst`, `prob`, `Normalised`), stated without the
   algorithm.
 
@@ -24,8 +25,23 @@
           else: out[S][P] = d[S][P]
 
   (`f` = identity for rule tables, division by the number of values for probabilities), which
-  is `instRules`.  NOTE: exactly as the code, the test is "is a Constant whose type is a key of
-  the table" — it does not look at `has_value()`.
+  is `instRules`.  NOTE: exactly as the code in /repo, the test is "is a Constant whose type is a
+  key of the table" — it does not look at `has_value()` (finding C17-F2).
+
+  REPAIRS.  Every definition takes a `Fix` saying which of the proposed repairs
+  (fixes_proposed/C17-F2.diff, C17-F3.diff, C17-F4.diff) are present in the code that is
+  modelled; `Fix.asIs` is the code as it is in /repo, `Fix.repaired` the code with the three
+  repairs:
+    f2  the test becomes `isinstance(P, Constant) and not P.has_value() and P.type in constants`
+        (6 grammar-side sites) and `Constant.all_constants_instantiation` yields a constant that
+        has a value unchanged;
+    f3  `constants = {t: Constant.distinct_values(t, v) for t, v in constants.items()}` at the top
+        of the 6 grammar-side functions, `for val in Constant.distinct_values(self.type, …)` on
+        the program side: a value listed twice counts once (first occurrence kept);
+    f4  `Constant.all_constants_instantiation` yields the constant itself when its type is not a
+        key of the table (instead of `KeyError`).
+  The harness probes the implementation for each of the three and asks the driver for that
+  variant.
 -/
 import PS.Model.Grammar
 import PS.Model.Cfg
@@ -35,30 +51,62 @@ open PS PS.G
 /-- `constants : Dict[Type, List[Any]]` -/
 abbrev Tbl := AList Ty (List String)
 
-/-- `isinstance(P, Constant) and P.type in constants` → `constants[P.type]` -/
-def slot? (tbl : Tbl) (P : Sym) : Option (List String) :=
-  if P.kind = .const then AList.lookup P.ty tbl else none
+/-- which repairs are present in the modelled code -/
+structure Fix where
+  /-- C17-F2: `and not P.has_value()` -/
+  f2 : Bool
+  /-- C17-F3: `Constant.distinct_values` -/
+  f3 : Bool
+  /-- C17-F4: a constant whose type is not in the table yields itself (program side) -/
+  f4 : Bool
+  deriving DecidableEq, Repr
+
+/-- the code as it is in /repo -/
+def Fix.asIs : Fix := ⟨false, false, false⟩
+/-- the code with the three proposed repairs -/
+def Fix.repaired : Fix := ⟨true, true, true⟩
+
+/-- `dict.fromkeys(Constant(type, val, True) for val in values)`: the values not `seen` yet, first
+    occurrences, order kept (a value is its canonical text: equal texts ⇔ equal Constants) -/
+def distinctAux (seen : List String) : List String → List String
+  | [] => []
+  | v :: vs => if seen.contains v then distinctAux seen vs else v :: distinctAux (v :: seen) vs
+
+/-- `Constant.distinct_values(type, values)` (fixes_proposed/C17-F3.diff) -/
+def distinct (vals : List String) : List String := distinctAux [] vals
+
+/-- the list of values the loops see for a type: `constants[P.type]`, made distinct when the
+    repair of C17-F3 is present -/
+def Fix.vals (fx : Fix) (vals : List String) : List String := if fx.f3 then distinct vals else vals
+
+/-- `isinstance(P, Constant)` [`and not P.has_value()` with the repair of C17-F2] -/
+def Fix.isConst (fx : Fix) (P : Sym) : Bool := P.kind = .const && (!fx.f2 || P.name = "")
+
+/-- `isinstance(P, Constant) [and not P.has_value()] and P.type in constants` → `constants[P.type]` -/
+def slot? (fx : Fix) (tbl : Tbl) (P : Sym) : Option (List String) :=
+  if fx.isConst P then (AList.lookup P.ty tbl).map fx.vals else none
 
 /-- the body of the loop over `P` for one entry `(P, v)` of the row, on the dict built so far -/
-def step {ν : Type} (tbl : Tbl) (f : ν → Nat → ν) (acc : AList Sym ν) (e : Sym × ν) : AList Sym ν :=
-  match slot? tbl e.1 with
+def step {ν : Type} (fx : Fix) (tbl : Tbl) (f : ν → Nat → ν) (acc : AList Sym ν) (e : Sym × ν) :
+    AList Sym ν :=
+  match slot? fx tbl e.1 with
   | some vals => vals.foldl (fun a val => AList.insert (Sym.const e.1.ty val) (f e.2 vals.length) a) acc
   | none => AList.insert e.1 e.2 acc
 
 /-- `for P in d[S]: …` starting from `{}` -/
-def instRow {ν : Type} (tbl : Tbl) (f : ν → Nat → ν) (row : AList Sym ν) : AList Sym ν :=
-  row.foldl (step tbl f) []
+def instRow {ν : Type} (fx : Fix) (tbl : Tbl) (f : ν → Nat → ν) (row : AList Sym ν) : AList Sym ν :=
+  row.foldl (step fx tbl f) []
 
 /-- `for S in d: out[S] = {} …` (the keys of a dict are distinct, so this is a map) -/
-def instRules {κ ν : Type} (tbl : Tbl) (f : ν → Nat → ν) (d : AList κ (AList Sym ν)) :
+def instRules {κ ν : Type} (fx : Fix) (tbl : Tbl) (f : ν → Nat → ν) (d : AList κ (AList Sym ν)) :
     AList κ (AList Sym ν) :=
-  d.map (fun e => (e.1, instRow tbl f e.2))
+  d.map (fun e => (e.1, instRow fx tbl f e.2))
 
 variable {S T : Type} [DecidableEq S] [DecidableEq T]
 
 /-- `TTCFG.instantiate_constants` (a CFG is a TTCFG): same start, `clean=False` -/
-def inst (G : TT S T) (tbl : Tbl) : TT S T :=
-  ⟨G.start, instRules tbl (fun v _ => v) G.rules⟩
+def inst (fx : Fix) (G : TT S T) (tbl : Tbl) : TT S T :=
+  ⟨G.start, instRules fx tbl (fun v _ => v) G.rules⟩
 
 /-! ### probabilistic deterministic grammars -/
 
@@ -66,13 +114,13 @@ def inst (G : TT S T) (tbl : Tbl) : TT S T :=
 abbrev Tags (S T : Type) := AList (NT S T) (AList Sym Rat)
 
 /-- `ProbDetGrammar.instantiate_constants`: `tags[S][P] / len(constants[P.type])` -/
-def instTags (tags : Tags S T) (tbl : Tbl) : Tags S T :=
-  instRules tbl (fun p n => p / (n : Rat)) tags
+def instTags (fx : Fix) (tags : Tags S T) (tbl : Tbl) : Tags S T :=
+  instRules fx tbl (fun p n => p / (n : Rat)) tags
 
 /-- `TaggedDetGrammar.instantiate_constants`: the tag is copied -/
-def instTagsPlain {τ : Type} (tags : AList (NT S T) (AList Sym τ)) (tbl : Tbl) :
+def instTagsPlain {τ : Type} (fx : Fix) (tags : AList (NT S T) (AList Sym τ)) (tbl : Tbl) :
     AList (NT S T) (AList Sym τ) :=
-  instRules tbl (fun p _ => p) tags
+  instRules fx tbl (fun p _ => p) tags
 
 /-- `self.tags[S][P]` (`none` = KeyError) -/
 def tag? (tags : Tags S T) (nt : NT S T) (P : Sym) : Option Rat :=
@@ -99,22 +147,28 @@ abbrev UTable (U : Type) := AList (UNT U) (AList Sym (List (List (UNT U))))
 abbrev UTags (U : Type) := AList (UNT U) (AList Sym (AList (List (UNT U)) Rat))
 
 /-- `UCFG.instantiate_constants` -/
-def instU {U : Type} (R : UTable U) (tbl : Tbl) : UTable U := instRules tbl (fun v _ => v) R
+def instU {U : Type} (fx : Fix) (R : UTable U) (tbl : Tbl) : UTable U :=
+  instRules fx tbl (fun v _ => v) R
 
 /-- `ProbUGrammar.instantiate_constants`: `{k: v / len(constants[P.type]) for k, v in …}` -/
-def instUTags {U : Type} (tags : UTags U) (tbl : Tbl) : UTags U :=
-  instRules tbl (fun d n => d.map (fun kv => (kv.1, kv.2 / (n : Rat)))) tags
+def instUTags {U : Type} (fx : Fix) (tags : UTags U) (tbl : Tbl) : UTags U :=
+  instRules fx tbl (fun d n => d.map (fun kv => (kv.1, kv.2 / (n : Rat)))) tags
 
 /-! ### program side -/
 
 /-- `Constant.all_constants_instantiation` / `Program.all_constants_instantiation` on a
     symbol: a Constant yields `Constant(type, val)` for `val in constants[type]` (KeyError =
-    `none` when the type is not a key), anything else yields itself. -/
-def allInstSym (tbl : Tbl) (P : Sym) : Option (List Sym) :=
+    `none` when the type is not a key), anything else yields itself.
+    With the repair of C17-F2 a constant that has a value yields itself; with the repair of
+    C17-F4 so does a constant whose type is not a key; with the repair of C17-F3 the values are
+    made distinct. -/
+def allInstSym (fx : Fix) (tbl : Tbl) (P : Sym) : Option (List Sym) :=
   if P.kind = .const then
-    match AList.lookup P.ty tbl with
-    | none => none
-    | some vals => some (vals.map (fun v => Sym.const P.ty v))
+    if fx.isConst P then
+      match AList.lookup P.ty tbl with
+      | none => if fx.f4 then some [P] else none
+      | some vals => some ((fx.vals vals).map (fun v => Sym.const P.ty v))
+    else some [P]
   else some [P]
 
 /-- `Option` sequencing of a list -/
@@ -125,31 +179,31 @@ def seqOpt {α : Type} : List (Option α) → Option (List α)
     | none => none
     | some xs => some (x :: xs)
 
-/- `Function.all_constants_instantiation` (program.py:308-317):
+/- `Function.all_constants_instantiation` (program.py:311-320):
       for f in self.function.all_constants_instantiation(constants):
           possibles = [list(arg.all_constants_instantiation(constants)) for arg in self.arguments]
           for args in itertools.product(*possibles): yield Function(f, list(args))
    (`none` = the KeyError of a constant whose type is not in the table; with an empty list of
    heads the arguments are never visited, so no KeyError can come from them). -/
 mutual
-  def allInst (tbl : Tbl) : Prog → Option (List Prog)
+  def allInst (fx : Fix) (tbl : Tbl) : Prog → Option (List Prog)
     | .node f kids =>
-      match allInstSym tbl f with
+      match allInstSym fx tbl f with
       | none => none
       | some [] => some []
       | some (h :: hs) =>
-        match allInstList tbl kids with
+        match allInstList fx tbl kids with
         | none => none
         | some poss => some ((h :: hs).flatMap (fun f' => (product poss).map (fun ks => Tree.node f' ks)))
-  def allInstList (tbl : Tbl) : List Prog → Option (List (List Prog))
+  def allInstList (fx : Fix) (tbl : Tbl) : List Prog → Option (List (List Prog))
     | [] => some []
     | k :: ks =>
-      match allInst tbl k, allInstList tbl ks with
+      match allInst fx tbl k, allInstList fx tbl ks with
       | some l, some ls => some (l :: ls)
       | _, _ => none
 end
 
-/-! ### specification -/
+/-! ### specification (independent of the code, hence of `Fix`) -/
 
 /-- a constant slot of the table: a constant without value whose type is a key -/
 def isSlot (tbl : Tbl) (P : Sym) : Bool :=
@@ -175,10 +229,15 @@ mutual
     | _, _ => false
 end
 
-/-- the template of an instantiated symbol: an assigned constant of a table type goes back to
-    the slot -/
+/-- the template of an instantiated symbol: a constant whose value is listed in the table for its
+    type goes back to the slot (this is the inverse of `symInst` on the symbols of a grammar that
+    satisfies `rulesOK`: there no constant of the grammar has a listed value) -/
 def templSym (tbl : Tbl) (f' : Sym) : Sym :=
-  if f'.kind = .const && AList.contains f'.ty tbl then Sym.const f'.ty "" else f'
+  if f'.kind = .const then
+    match AList.lookup f'.ty tbl with
+    | some vals => if vals.contains f'.name then Sym.const f'.ty "" else f'
+    | none => f'
+  else f'
 
 mutual
   def templ (tbl : Tbl) : Prog → Prog
@@ -226,47 +285,119 @@ def uRowSum {κ : Type} (row : AList Sym (AList κ Rat)) : Rat :=
 def NormalisedU {U : Type} (tags : UTags U) : Prop :=
   ∀ e ∈ tags, uRowSum e.2 = 1
 
-/-! ### hypotheses (all decidable) -/
+/-! ### hypotheses (all decidable)
+
+  `rulesOK fx` / `rulesNonEmpty fx` / `progOK fx` are the hypotheses of the `_partial` theorems,
+  for the code with the repairs `fx`.  Their clauses are the classifiers of the findings that are
+  NOT repaired in `fx`, plus well-formedness of the encoding and of the input:
+
+    clause                                      needed when          otherwise
+    ------------------------------------------  -------------------  ------------------------------
+    keys of a row distinct                      always               (a row is a Python dict)
+    a key the code instantiates is the bare     ¬ f2                 C17-F2 (with f2 it only says
+      slot `Sym.const ty ""`                                         that the unused index field is 0)
+    its value list is duplicate free            ¬ f3                 C17-F3 (with f3: by construction)
+    "" is not a value                           always               encoding ("" = no value)
+    a constant the code leaves alone does not   f2                   two templates would have a
+      carry a value listed for its type                              common instantiation (with ¬ f2
+                                                                     no such constant exists)
+    no slot has an empty value list             always (mass only)   C17-F1
+    program side: a constant has no value       ¬ f2                 C17-F2
+    program side: its type is a key             ¬ f4                 C17-F4
+-/
 
 /-- the values of a type are pairwise distinct (as `Constant`s) and are values (not the
     "no value" marker) -/
 def valsOK (vals : List String) : Bool := vals.Nodup && !(vals.contains "")
 
-/-- a row is a Python dict (distinct keys); its constants of a table type are all slots, i.e.
-    carry no value yet (finding C17-F2 otherwise: the code re-instantiates them), and the value
-    lists used by the row are duplicate free (finding C17-F3 otherwise) -/
-def rowOK {ν : Type} (tbl : Tbl) (row : AList Sym ν) : Bool :=
-  (AList.keys row).Nodup &&
-  (AList.keys row).all (fun P => match slot? tbl P with
-    | none => true
-    | some vals => P = Sym.const P.ty "" && valsOK vals)
+/-- one key of a row: see the table above -/
+def keyOK (fx : Fix) (tbl : Tbl) (P : Sym) : Bool :=
+  match slot? fx tbl P with
+  | some vals => P = Sym.const P.ty "" && valsOK vals
+  | none => !(P.kind = .const) || match AList.lookup P.ty tbl with
+      | some vals => !(vals.contains P.name)
+      | none => true
 
-def rulesOK {κ ν : Type} (tbl : Tbl) (d : AList κ (AList Sym ν)) : Bool :=
-  d.all (fun e => rowOK tbl e.2)
+/-- a row is a Python dict (distinct keys) whose keys are `keyOK` -/
+def rowOK {ν : Type} (fx : Fix) (tbl : Tbl) (row : AList Sym ν) : Bool :=
+  (AList.keys row).Nodup && (AList.keys row).all (keyOK fx tbl)
+
+def rulesOK {κ ν : Type} (fx : Fix) (tbl : Tbl) (d : AList κ (AList Sym ν)) : Bool :=
+  d.all (fun e => rowOK fx tbl e.2)
 
 /-- no slot of the row has an empty value list (finding C17-F1 otherwise) -/
-def rowNonEmpty {ν : Type} (tbl : Tbl) (row : AList Sym ν) : Bool :=
-  (AList.keys row).all (fun P => match slot? tbl P with
+def rowNonEmpty {ν : Type} (fx : Fix) (tbl : Tbl) (row : AList Sym ν) : Bool :=
+  (AList.keys row).all (fun P => match slot? fx tbl P with
     | some [] => false
     | _ => true)
 
-def rulesNonEmpty {κ ν : Type} (tbl : Tbl) (d : AList κ (AList Sym ν)) : Bool :=
-  d.all (fun e => rowNonEmpty tbl e.2)
+def rulesNonEmpty {κ ν : Type} (fx : Fix) (tbl : Tbl) (d : AList κ (AList Sym ν)) : Bool :=
+  d.all (fun e => rowNonEmpty fx tbl e.2)
 
-/-- program side: every constant of the template is a slot of the table with a duplicate-free
-    value list -/
-def symOK (tbl : Tbl) (P : Sym) : Bool :=
+/-- program side: a constant of the template has no value (finding C17-F2 otherwise, unless
+    repaired), its type is a key of the table (finding C17-F4 otherwise, unless repaired) and its
+    values are duplicate free (finding C17-F3 otherwise, unless repaired) -/
+def symOK (fx : Fix) (tbl : Tbl) (P : Sym) : Bool :=
   !(P.kind = .const) ||
-    (P = Sym.const P.ty "" && match AList.lookup P.ty tbl with
-      | some vals => valsOK vals
-      | none => false)
+    (if P.name = "" then
+      match AList.lookup P.ty tbl with
+      | some vals => (fx.vals vals).Nodup
+      | none => fx.f4
+    else fx.f2)
 
 mutual
-  def progOK (tbl : Tbl) : Prog → Bool
-    | .node f kids => symOK tbl f && progOKList tbl kids
-  def progOKList (tbl : Tbl) : List Prog → Bool
+  def progOK (fx : Fix) (tbl : Tbl) : Prog → Bool
+    | .node f kids => symOK fx tbl f && progOKList fx tbl kids
+  def progOKList (fx : Fix) (tbl : Tbl) : List Prog → Bool
     | [] => true
-    | k :: ks => progOK tbl k && progOKList tbl ks
+    | k :: ks => progOK fx tbl k && progOKList fx tbl ks
 end
+
+/-! #### what is left of the hypotheses for the repaired code (no clause of a finding)
+
+  With the repairs the code looks only at the slots (constants without value) and at the entries
+  of the table for the types of these slots: `restrict (slotTys d) tbl`.  What is left to assume is
+  that the input is well formed: rows are dicts, "" is not a value, and no constant of the grammar
+  already carries a value that the table lists for a type which still has a slot in the grammar
+  (otherwise two templates of the grammar — `<int>` and `5` — have a common instantiation and
+  "each instantiation is obtained exactly once" cannot hold for any implementation). -/
+
+/-- a slot of the grammar: a constant without value -/
+def slotLike (P : Sym) : Bool := P.kind = .const && P.name = ""
+
+/-- the types of the slots of the rows -/
+def slotTys {κ ν : Type} (d : AList κ (AList Sym ν)) : List Ty :=
+  d.flatMap (fun e => ((AList.keys e.2).filter slotLike).map (·.ty))
+
+/-- the entries of the table for the types `ts` -/
+def restrict (ts : List Ty) (tbl : Tbl) : Tbl := tbl.filter (fun e => decide (e.1 ∈ ts))
+
+/-- a constant of a table type is `Sym.const ty name` (index field 0), its value is not listed
+    for its type (for a slot: "" is not a value) -/
+def keyWF (tbl : Tbl) (P : Sym) : Bool :=
+  !(P.kind = .const) || match AList.lookup P.ty tbl with
+    | some vals => P = Sym.const P.ty P.name && !(vals.contains P.name) && !(vals.contains "")
+    | none => true
+
+def rowWF {ν : Type} (tbl : Tbl) (row : AList Sym ν) : Bool :=
+  (AList.keys row).Nodup && (AList.keys row).all (keyWF tbl)
+
+/-- the rows are dicts and no constant of the rows carries a value that `tbl` lists for its type -/
+def rulesWF {κ ν : Type} (tbl : Tbl) (d : AList κ (AList Sym ν)) : Bool :=
+  d.all (fun e => rowWF tbl e.2)
+
+/-- **hypothesis on a grammar for the repaired code**: `rulesWF` for the part of the table that
+    matters — the entries of the types that have a slot in the grammar -/
+def grammarWF {κ ν : Type} (tbl : Tbl) (d : AList κ (AList Sym ν)) : Bool :=
+  rulesWF (restrict (slotTys d) tbl) d
+
+/-- **hypothesis on the tags of a probabilistic grammar with rule table `d`**: the tags have no
+    slot type that the rules do not have, and are well formed for the same part of the table -/
+def tagsWF {κ ν κ' ν' : Type} (tbl : Tbl) (d : AList κ (AList Sym ν)) (tags : AList κ' (AList Sym ν')) : Bool :=
+  (slotTys tags).all (fun t => decide (t ∈ slotTys d)) && rulesWF (restrict (slotTys d) tbl) tags
+
+/-- no slot of the grammar has an empty value list (finding C17-F1 otherwise) -/
+def slotsNonEmpty {κ ν : Type} (tbl : Tbl) (d : AList κ (AList Sym ν)) : Bool :=
+  rulesNonEmpty Fix.repaired tbl d
 
 end PS.IC
